@@ -36,7 +36,7 @@ fn meta() -> Meta {
     Meta {
         id: "C10",
         level: "exploration",
-        rule: "(i) every target string of <= 5 (quick) / 6 (thorough) tokens over {'{', '}', ',', a, e-acute, _Default, W} through Log::enabled and Log::log, with and without an additional writer; (ii) 6 message shapes x absent optional fields x key-values through 10 output kinds; (iii) specification strings: special inputs (the token sweep is C17's); (iv) basename {app, empty, a-umlaut-pp, a.b} x discriminant {none, d, e-acute} x suffix {log, none, l.g, a multi-byte one} x start time on/off x naming (6 schemes + custom formats of 4/10/20/30 characters and three with multi-byte characters, with and without current infix) x append on/off through start-W-R-W-restart-W-shutdown; (v) every single near-miss file name of C14's alphabet x naming x cleanup; (vi) recursive logging (1 and 2 levels deep) against 10 output kinds with and without text filter; (vii) write-mode parameters at their extremes; distinct_nontrivial = distinct cases whose input contains a brace, a multi-byte character, an empty part or a pre-existing file; (viii) recursive logging (a Display that logs) racing with set_new_spec under the controlled scheduler, all schedules with <= 2 / 3 preemptions (a deadlock among threads blocked for real is a verdict); and four rotating records followed by shutdown() with the background cleanup thread under the controlled scheduler",
+        rule: "(i) every target string of <= 5 (quick) / 6 (thorough) tokens over {'{', '}', ',', a, e-acute, _Default, W} through Log::enabled and Log::log, with and without an additional writer; (ii) 6 message shapes x absent optional fields x key-values through 10 output kinds; (iii) specification strings: special inputs (the token sweep is C17's); (iv) basename {app, empty, a-umlaut-pp, a.b} x discriminant {none, d, e-acute} x suffix {log, none, l.g, a multi-byte one, restart-0000} x start time on/off x naming (6 schemes + custom formats of 4/10/20/30 characters and three with multi-byte characters, with and without current infix) x append on/off through start-W-R-W-restart-W-shutdown; (v) every single near-miss file name of C14's alphabet x naming x cleanup; (vi) recursive logging (1 and 2 levels deep) against 10 output kinds with and without text filter; (vii) write-mode parameters at their extremes; distinct_nontrivial = distinct cases whose input contains a brace, a multi-byte character, an empty part or a pre-existing file; (viii) recursive logging (a Display that logs) racing with set_new_spec under the controlled scheduler, all schedules with <= 2 / 3 preemptions (a deadlock among threads blocked for real is a verdict); and four rotating records followed by shutdown() with the background cleanup thread under the controlled scheduler",
         assumptions: vec![
             "documented panics are kept out of the alphabets (FileSpec::try_from on a path without file name, invalid strftime format strings, use_utc after local time was used)".into(),
             "a hang is a case that does not finish within 10 s".into(),
@@ -124,8 +124,9 @@ enum Kind {
     Syslog,
     Writer,
     Capture,
+    SyslogTcp,
 }
-const KINDS: [Kind; 10] = [
+const KINDS: [Kind; 11] = [
     Kind::File(ModeK::Direct),
     Kind::File(ModeK::BufDont(32)),
     Kind::File(ModeK::Async(1, 16, 0)),
@@ -136,6 +137,7 @@ const KINDS: [Kind; 10] = [
     Kind::Syslog,
     Kind::Writer,
     Kind::Capture,
+    Kind::SyslogTcp,
 ];
 
 struct Built {
@@ -170,6 +172,26 @@ fn build_kind(k: Kind, env: &Env, spec: &str) -> Result<Built, (String, String)>
         Kind::Capture => {
             caps.extend(FdCapture::start(1, sc.path().join("out.txt")));
             base.log_to_stdout().write_mode(WriteMode::SupportCapture)
+        }
+        Kind::SyslogTcp => {
+            // a listener on the loopback interface that reads and discards
+            let listener = std::net::TcpListener::bind("127.0.0.1:0").map_err(|e| ("machinery".to_string(), e.to_string()))?;
+            let addr = listener.local_addr().map_err(|e| ("machinery".to_string(), e.to_string()))?;
+            std::thread::Builder::new()
+                .name("fxv-syslog-sink".into())
+                .spawn(move || {
+                    if let Ok((mut c, _)) = listener.accept() {
+                        let mut buf = [0u8; 4096];
+                        while matches!(std::io::Read::read(&mut c, &mut buf), Ok(n) if n > 0) {}
+                    }
+                })
+                .ok();
+            let w = SyslogWriter::builder(SyslogConnection::try_tcp(addr).map_err(|e| ("machinery".to_string(), e.to_string()))?, SyslogLineHeader::Rfc3164, SyslogFacility::LocalUse0)
+                .max_log_level(LevelFilter::Trace)
+                .build()
+                .map_err(|e| ("machinery".to_string(), e.to_string()))?;
+            target = "{S}";
+            base.do_not_log().add_writer("S", w)
         }
         Kind::Syslog => {
             let p = sc.path().join("s.sock");
@@ -529,7 +551,7 @@ fn writemode_case(i: usize) -> Result<(), (String, String)> {
 
 const BASENAMES: [&str; 4] = ["app", "", "äpp", "a.b"];
 const DISCRS: [Option<&str>; 3] = [None, Some("d"), Some("é")];
-const SUFFIXES: [Option<&str>; 4] = [Some("log"), None, Some("l.g"), Some("ログ")];
+const SUFFIXES: [Option<&str>; 5] = [Some("log"), None, Some("l.g"), Some("ログ"), Some("restart-0000")];
 
 fn n_target_units() -> usize {
     TTOK.len() + 1
